@@ -316,15 +316,36 @@ func runC10(args []string) error {
 			}
 		}
 		cr, del, chg, tch = sandbox.Diff(mid, after)
+		listed := map[string]bool{}
+		for _, p := range ro.Repaired {
+			listed[p] = true
+		}
+		changedOK := true
 		for _, p := range append(append(append(cr, del...), chg...), tch...) {
-			if p != "." && !savedNames[p] {
+			if p == "." {
+				continue
+			}
+			if !savedNames[p] {
 				outside = append(outside, "repair:"+p)
+				continue
+			}
+			// a written protected file must be its exact original and be listed
+			var orig []byte
+			for _, sp := range specs {
+				if sp.Name == p {
+					orig = sp.Data
+				}
+			}
+			b, err := ioutil.ReadFile(filepath.Join(dir, p))
+			if err != nil || !bytes.Equal(b, orig) || !listed[p] {
+				changedOK = false
 			}
 		}
 		lg.Emit(tracelog.M{"ev": "p1layout", "kinds": l.Kinds, "comment": l.Comment, "uni": l.Uni, "bad": l.Bad, "vols": l.Vols, "nsaved": l.NSaved,
 			"expect_ok": l.ExpectOK,
 			"verify": tracelog.M{"err": vo.Err, "errtext": vo.ErrText + vo.Panic, "usable": vo.Usable, "unusable": vo.Unusable, "pusable": vo.PUsable},
-			"repair": tracelog.M{"err": ro.Err, "errtext": ro.ErrText + ro.Panic, "repaired": ro.Repaired}, "restored": restored, "outside": outside})
+			"repair": tracelog.M{"err": ro.Err, "errtext": ro.ErrText + ro.Panic, "repaired": ro.Repaired}, "restored": restored, "outside": outside,
+			"changed_ok": changedOK})
 		os.RemoveAll(dir)
 	}
 	return sc.Err()
